@@ -261,6 +261,7 @@ class Prog:
         import dds
         self.w.fresh_dds_state()
         self.purge()
+        self._helper_fresh = True
         for p in self.accept_first + [self.pkg + self.accept_suffix] + self.extra_accept + ([self.pkg.replace("vp", "vh")] if self.has_helper_pkg else []):
             dds.accept_module(p)
         self.open_store()
@@ -404,6 +405,12 @@ class Prog:
             sys.modules["dds"] = real_dds
         ref.log = list(pl.cur)
         ref.sigs = dict((p, v) for p, v in rd.kept)  # path -> value (latest in program order)
+        if self.has_helper_pkg and getattr(self, "_helper_fresh", False):
+            # the plain execution is another process: in this one nobody has imported the lazily imported package yet
+            self._helper_fresh = False
+            hp = self.pkg.replace("vp", "vh")
+            for k in [k for k in sys.modules if k.split(".")[0] == hp]:
+                del sys.modules[k]
         real = Obs()
         pl.cur = []
         cap = self.capture
